@@ -380,6 +380,18 @@ Theorem C14_src_backward_pass_outcome : forall cfg w, isolated_ok w = true ->
   outcome_code (src_roots_fold src_bwd_pass cfg w (rev (roots w))) = outcome_code (backward cfg w).
 Proof. exact src_backward_outcome. Qed.
 
+(* ---- calc's helpers from the source text (gen/SrcPass.v; Sched/SrcCalcEquiv.v): the pre-checks are the model's
+   [isolated_ok] / [no_future_ends], __prepare_tasks turns the user's values ([raw_dyn]) into the model's initial state ---- *)
+From PJ Require Import Sched.SrcCalcEquiv.
+
+Theorem C14_src_validate_graph_isolation : forall w,
+  src_validate_graph_isolation w = if isolated_ok w then Ok tt else Err.
+Proof. exact src_validate_graph_isolation_eq. Qed.
+
+Theorem C14_src_check_no_end_dates_in_future : forall cfg w,
+  src_check_no_end_dates_in_future cfg w = if no_future_ends w (now cfg) then Ok tt else Err.
+Proof. exact src_check_no_end_dates_in_future_eq. Qed.
+
 Print Assumptions C14_total_forward.
 Print Assumptions C14_total_backward.
 Print Assumptions C14_compute_no_crash.
@@ -414,3 +426,5 @@ Print Assumptions C14_src_forward_pass_total.
 Print Assumptions C14_src_backward_pass_total.
 Print Assumptions C14_src_forward_pass_outcome.
 Print Assumptions C14_src_backward_pass_outcome.
+Print Assumptions C14_src_validate_graph_isolation.
+Print Assumptions C14_src_check_no_end_dates_in_future.
